@@ -809,7 +809,11 @@ func (b *outlierDetectionBalancer) failurePercentageAlgorithm() {
 
 // Caller must hold b.mu.
 func (b *outlierDetectionBalancer) ejectEndpoint(epInfo *endpointInfo, detectionMethod string) {
-	b.numEndpointsEjected++
+	if epInfo.latestEjectionTimestamp.IsZero() {
+		// Count an endpoint once, also when both algorithms eject it in the
+		// same interval or it is ejected again while still ejected.
+		b.numEndpointsEjected++
+	}
 	epInfo.latestEjectionTimestamp = b.timerStartTime
 	epInfo.ejectionTimeMultiplier++
 	for _, sbw := range epInfo.sws {
